@@ -556,7 +556,7 @@ func edgeCondsOfPred(b *ssa.BasicBlock) []edgeCond {
 
 type kindSite struct {
 	fn       *ssa.Function
-	alloc    *ssa.Alloc
+	alloc    ssa.Instruction
 	nav      string // "map", "list", "map+list"
 	expected string
 	foundOK  bool
@@ -613,8 +613,128 @@ func ruleNKind(c *engine.Context) *report.Rule {
 		}
 	}
 	var sites []*kindSite
+	// constructor helpers: a function that builds the error from its parameters only
+	// (node descriptor, expected kind, the mismatching value); its call sites are the sites
+	type ctorRoles struct{ node, exp, found int }
+	ctors := map[*ssa.Function]ctorRoles{}
+	for _, fn := range evalFuncs(c) {
+		if sinkParam(p, fn) != nil {
+			continue
+		}
+		for _, b := range fn.Blocks {
+			for _, ins := range b.Instrs {
+				al, ok := ins.(*ssa.Alloc)
+				if !ok || !types.Identical(al.Type().(*types.Pointer).Elem(), tuT) {
+					continue
+				}
+				roles := ctorRoles{-1, -1, -1}
+				good := true
+				prmIdx := func(v ssa.Value) int {
+					for i, pp := range fn.Params {
+						if ssa.Value(pp) == v {
+							return i
+						}
+					}
+					return -1
+				}
+				for _, ref := range *al.Referrers() {
+					fa, ok := ref.(*ssa.FieldAddr)
+					if !ok {
+						continue
+					}
+					for _, r2 := range *fa.Referrers() {
+						stv, ok := r2.(*ssa.Store)
+						if !ok || stv.Addr != ssa.Value(fa) {
+							continue
+						}
+						switch fa.Field {
+						case expIdx:
+							roles.exp = prmIdx(stv.Val)
+						case nodeIdx:
+							roles.node = prmIdx(stv.Val)
+						case foundIdx:
+							// phi(const, reflect.TypeOf(param).String()) under param != nil
+							for i, pp := range fn.Params {
+								if it, isI := pp.Type().Underlying().(*types.Interface); isI && it.NumMethods() == 0 {
+									var why []string
+									if foundTypeOK(p, stv.Val, pp, &why) {
+										roles.found = i
+									}
+								}
+							}
+						}
+					}
+				}
+				if roles.node < 0 || roles.exp < 0 || roles.found < 0 {
+					good = false
+				}
+				if good {
+					ctors[fn] = roles
+				}
+			}
+		}
+	}
+	for _, fn := range evalFuncs(c) {
+		if len(ctors) == 0 || len(fn.Params) < 3 {
+			continue
+		}
+		for _, b := range fn.Blocks {
+			for _, ins := range b.Instrs {
+				call, ok := ins.(*ssa.Call)
+				if !ok || call.Call.StaticCallee() == nil {
+					continue
+				}
+				roles, isCtor := ctors[call.Call.StaticCallee()]
+				if !isCtor {
+					continue
+				}
+				ks := &kindSite{fn: fn, alloc: call}
+				sites = append(sites, ks)
+				conds := dominatingConds(b)
+				var current ssa.Value
+				for _, dc := range conds {
+					if ex, ok := dc.cond.(*ssa.Extract); ok && ex.Index == 1 {
+						if ta, ok := ex.Tuple.(*ssa.TypeAssert); ok {
+							if _, isP := ta.X.(*ssa.Parameter); isP {
+								current = ta.X
+							}
+						}
+					}
+				}
+				if current == nil {
+					ks.why = append(ks.why, "no failed type test of a parameter dominates the error")
+					continue
+				}
+				m, l := navSetOf(conds, current)
+				switch {
+				case m && l:
+					ks.nav = "map+list"
+				case m:
+					ks.nav = "map"
+				case l:
+					ks.nav = "list"
+				}
+				if cst, ok := call.Call.Args[roles.exp].(*ssa.Const); ok && cst.Value != nil {
+					ks.expected = cst.Value.ExactString()
+				} else {
+					ks.why = append(ks.why, "expected kind is not a constant")
+				}
+				ks.foundOK = call.Call.Args[roles.found] == current
+				if !ks.foundOK {
+					ks.why = append(ks.why, "the found type is computed from a value other than the one whose type test failed")
+				}
+				ks.nodeOK = derivesFromReceiver(call.Call.Args[roles.node], fn)
+				if !ks.nodeOK {
+					ks.why = append(ks.why, "the error does not reference the raising node's own descriptor")
+				}
+			}
+		}
+	}
 	for _, fn := range evalFuncs(c) {
 		if len(fn.Params) < 3 {
+			continue
+		}
+		if _, isCtor := ctors[fn]; isCtor {
 			continue
 		}
 		for _, b := range fn.Blocks {
